@@ -37,7 +37,7 @@ CASES = [
     m("combined tensor: depopulation dropped", "C01-A", R + "redfieldfoerster.py",
       "                self.data[b,b,b,b] += -gg", "                pass"),
     m("combined TD tensor: rate written to wrong element", "C01-A", R + "tdredfieldfoerster.py",
-      "self.data[:,a,a,b,b] += KF[:,a,b]", "self.data[:,a,b,a,b] += KF[:,a,b]"),
+      "self.data[:,a,a,b,b] += KF[:Ntc,a,b]", "self.data[:,a,b,a,b] += KF[:Ntc,a,b]"),
     m("Foerster dephasing without conj (the repaired defect)", "C01-B", R + "foerstertensor.py",
       "+numpy.conj(ht[bb,Nt-1]))", "+ht[bb,Nt-1])"),
     m("TD Foerster dephasing without conj (the repaired defect)", "C01-B", R + "tdfoerstertensor.py",
